@@ -90,10 +90,28 @@ def sample_lists(tier, seed, keys=("a", "b"), max_pairs=None):
     for a in core:
         for b in core:
             yield [a, b]
-    n = max_pairs if max_pairs is not None else (300 if tier == "quick" else 6000)
+    n = max_pairs if max_pairs is not None else (300 if tier == "quick" else 60000)
     for _ in range(n):
-        k = rng.choice((2, 2, 3))
+        k = rng.choice((2, 2, 3)) if tier == "quick" else rng.choice((2, 3, 3, 4))
         yield [rng.choice(objs) for _ in range(k)]
+    if tier == "thorough":
+        yield from random_sample_lists(seed, 40000)
+
+
+def random_value(rng, depth):
+    """random JSON value over small alphabets (thorough tier): scalars, lists of <= 3, objects of <= 2 keys, depth <= 3"""
+    r = rng.random()
+    if depth <= 0 or r < 0.45:
+        return rng.choice(SCALARS)
+    if r < 0.72:
+        return [random_value(rng, depth - 1) for _ in range(rng.choice((0, 1, 1, 2, 3)))]
+    return {k: random_value(rng, depth - 1) for k in rng.sample(("k", "m", "n"), rng.choice((0, 1, 2, 2)))}
+
+
+def random_sample_lists(seed, n):
+    rng = random.Random(seed * 7919 + 13)
+    for _ in range(n):
+        yield [{k: random_value(rng, 3) for k in rng.sample(("a", "b", "c"), rng.choice((1, 2, 2, 3)))} for _ in range(rng.choice((1, 2, 2, 3, 4)))]
 
 
 def addr(n, **extra):
